@@ -1,7 +1,31 @@
-"""C10 check configuration (data only)."""
+"""C10 check configuration."""
+import json
+import os
+
 from propbase import KERNEL, HARNESS
 
+# what a run must have reached to count as evidence for the branches named in level_text / assumptions
+REQUIRED_TAGS = ["factor_double_compared=true", "factor_inexact=true", "factor_filtered_double=true", "model_compared=true",
+                 "model_compared=false", "huge_ct=true", "scroll_den0=true", "ppc=varied", "fp_siblings_overlap=true",
+                 "fp_saturating_extent=true", "route=ctor", "route=ref", "route=json", "tiny_ct=true"]
+
+
+def require_reach(ctx):
+    """a run whose generated cases miss one of the required kinds is reported (not silently accepted)"""
+    if ctx.get("replay"):
+        return {}
+    dist = json.load(open(os.path.join(ctx["build"], "cases", "C10", "meta.json"))).get("distribution", {})
+    cov = {"reach " + t: dist.get(t, 0) for t in REQUIRED_TAGS}
+    missing = [t for t in REQUIRED_TAGS if not dist.get(t, 0)]
+    violations = []
+    if missing:
+        violations.append({"kind": "broken-correspondence",
+                           "what": "the generated cases did not reach: %s (generator changed?)" % ", ".join(missing), "case": {}})
+    return {"violations": violations, "coverage": cov}
+
+
 PROP = {'gen': [],
+ 'extra': [require_reach],
  'coq_props': ['theories/Props/C10.vo'],
  'coq_corr': ['theories/Corr/C10Corr.vo'],
  'props_file': 'theories/Props/C10.v',
@@ -10,13 +34,13 @@ PROP = {'gen': [],
                'Dynamic, Text, Layout::apply_to, FindPath, ViewDeserializer} and the View impls of str, (), RGBA, Option, Either, Image, Glyph)',
  'level_text': 'Coq theorems, by induction over view trees (text, str, flex, container, frame, scroll bar, tag, dynamic, option/either, '
                'fill, unit, image, glyph, surface view, half-block image, cached view; any constraint with min <= max, extents up to '
-               'usize::MAX; both glyph settings; any pixels-per-cell; any nine frame fragments; ANY flex share function capped by the '
-               'remaining space as the repaired code caps it): layout returns a tree (no underflow, no division by zero, no invalid '
-               'clamp); text/flex/container/image/glyph/fill/surface sizes lie within the constraint; render with any layout tree never '
+               'usize::MAX; both glyph settings; pixels-per-cell and the nine frame fragments as parameters; ANY flex share function capped by the '
+               'remaining space as the repaired code caps it): layout returns a tree (the plain - and / of the code are checked operations of the model, proved never to underflow / divide by '
+               'zero; no invalid clamp); text/flex/container/image/glyph/fill/surface sizes lie within the constraint; render with any layout tree never '
                'panics and changes nothing outside its surface, with layout\'s own tree it completes; every leaf of every kind is handed, '
                'in drawing order, exactly the window the layout tree records for it and paints only inside it; find_path follows the '
                'first child containing the position; in every tree layout produces siblings are pairwise disjoint, so the order of '
-               'children does not matter for hit-testing. '
+               'children does not matter for hit-testing, and hit-testing any cell a leaf paints leads to that leaf\'s node. '
                'Model tied to the code by a differential run over trees built through constructors, FlexRef and JSON.',
  'level_note': 'Trusted: Coq kernel + vm_compute; hand-written model validated by the correspondence run; extents saturate at usize::MAX as in '
                'the repaired code. The theorems do not depend on the f64 arithmetic of the flex share: they hold for every share '
@@ -37,6 +61,8 @@ PROP = {'gen': [],
                  'exact; trees with other doubles (non-dyadic, subnormal, huge, inf/NaN: the latter two are filtered to non-flex by the '
                  'repaired code) and flex layouts under extents >= 2^40 are run against the property predicates only',
                  'scroll bar fractions are rationals num/den (den = 0 meaning ScrollBarPosition::from_counts with total 0)',
+                 'pixels-per-cell: unbounded in the model; the code needs surface extent x pixels-per-cell <= usize::MAX (Image::render) and an '
+                 'allocatable 3x3-cell pixel raster (Frame)',
                  'domain: surfaces that exist in memory (height * width cells allocated); layout extents may be anything up to usize::MAX '
                  'and are only ever added/subtracted saturating or clipped against the surface (Layout::apply_to); the products '
                  'height * width in Shape::from, SurfaceOwned::new, Size::area and Image::size_cells act on existing surfaces/images, never '
